@@ -123,11 +123,17 @@ def _one(rec, phi, rng, idx):
     scale = rng.choice([1.0, 1.0, 1.0, 1.0, 0.01, 0.1, 10.0, 100.0, 1000.0])
     l1, l2, l3 = l1 * scale, l2 * scale, l3 * scale
     th1, th2 = (math.radians(rng.uniform(20, 160)) for _ in range(2))
+    nearly_linear = scale == 1.0 and rng.random() < 0.15
+    if nearly_linear:
+        # bond angles close to (but not at) 0 and 180 degrees: still a well-defined dihedral
+        th1 = math.radians(rng.choice([0.2, 0.5, 1.0, 179.0, 179.8, 179.9]))
+        if rng.random() < 0.3:
+            th2 = math.radians(rng.choice([0.3, 179.7]))
     pts = geom.build_dihedral(phi, l1, l2, l3, th1, th2)
     ref, margin = geom.dihedral(*pts)
     rec.check("builder.reference-self-check", geom.wrapdiff(ref, phi) <= 1e-12, lambda: {"phi": phi, "ref": ref})
     R = geom.random_rotation(rng)
-    t = np.array([rng.uniform(-500, 500) for _ in range(3)]) * min(1.0, scale) if rng.random() < 0.7 else np.zeros(3)
+    t = np.array([rng.uniform(-500, 500) for _ in range(3)]) * min(1.0, scale) * (0.01 if nearly_linear else 1.0) if rng.random() < 0.7 else np.zeros(3)
     moved = [R @ p + t for p in pts]
     M = np.diag([1.0, 1.0, -1.0])
     mirrored = [R @ (M @ p) + t for p in pts]
